@@ -8,6 +8,8 @@ R02.1 (BytesAI) the slices emitted by the segmenter partition [0, S) in order: f
 R02.2 (BytesAI) predecessor bit <=> start > 0, successor bit <=> start + n < S, on every path.
 R02.3 (effects) the record kind, type byte and body are read-only after construction; the per-class type byte is
       stored on the receiver class and computed from that class's constant.
+R02.5 (BytesAI, = C01 R01.5 c/d) padding flag <=> pad bytes, each holding the pad count, and declared size = emitted length:
+      a reader never strips body bytes as padding.
 R02.4 (inlined value-flow summary of the writer's entry method) what reaches the output buffer is produced inside
       `for record in <the records given>` and, nested in it, `for segment in <that record's bytes>.<segmenter>(...)` -
       the iterables themselves, not a sorted / reversed / sliced rearrangement; the body handed to the segmenter is the
@@ -37,7 +39,8 @@ TRUSTED = ["Python semantics of the modelled subset", "sa/absint.py, sa/linarith
 
 def run(chk, model: SegmentModel = None):
     ix, cg = chk.ix, chk.cg
-    m = model or SegmentModel(ix, cg)
+    from ..segmodel import shared_model
+    m = model or shared_model(ix, cg)
     chk.trusted = TRUSTED
     chk.consult(m.segmenter, m.record_loop[0])
     for q in m.it.consulted:
@@ -48,7 +51,24 @@ def run(chk, model: SegmentModel = None):
 
     if m.error is None:
         chk.guard(_bytes_ai_part, chk, m, S, rep)
+        chk.guard(_padding_part, chk, m)
     chk.guard(_structural_part, chk, m)
+
+
+def _padding_part(chk, m):
+    """R02.5: what a reader strips from the end of a segment is decided by the padding flag and the pad count in the last
+    byte; if a segment without pad bytes carries the flag (or pad bytes do not hold their count), body bytes are taken for
+    padding and the reassembled record is shorter than the one written (= the pad obligations of C01 R01.5, for every
+    segment of every body length)."""
+    from . import c01
+    n0 = len(chk.obs)
+    c01.r01_5_segments(chk, m)
+    keep = []
+    for o in chk.obs[n0:]:
+        if o.key.startswith(("d-pad", "c-size==len")):
+            o.rule = "R02.5"
+            keep.append(o)
+    chk.obs[n0:] = keep
 
 
 def _bytes_ai_part(chk, m, S, rep):
